@@ -85,12 +85,41 @@ def adjacency():
     return out
 
 
+# ---------------------------------------------------------------------------
+# between family: every kind of item between a label and a pc-relative reference to it
+# (backward) / between the reference and the label (forward): the value depends on how every
+# pass accounts for the size of that item
+# ---------------------------------------------------------------------------
+ITEMS = {
+    'f4': [F4], 'fc': [FC], 'liK': ['li x5 K0'], 'li5': ['li x5 5'], 'lifar': ['li x5 0x12345678'],
+    'call9': ['call L9'], 'tail9': ['tail L9'], 'dh_al8': ['dh 1', 'align 8'], 'al4': ['align 4'],
+    'dh': ['dh 1'], 'db2': ['db 1', 'db 2'], 'dw': ['dw 7'], 'dd': ['dd 1'], 'bytes': ['bytes 1 2'],
+    'shorts': ['shorts 1 2 3'], 'ints': ['ints 1'], 'longs': ['longs 1'], 'longlongs': ['longlongs 1'],
+    'string': ['string ab'], 'string_u': ['string \u00e9\u00e9'], 'string_esc': ['string a\\nbc'],
+    'packh': ['pack <h 1'], 'packQ': ['pack >Q 1'], 'gap': [G(1)], 'mv': ['mv x8 x9'], 'ret': ['ret'],
+    'hi': ['lui x5 %hi(L9)'], 'const': ['K9 = 3'], 'label': ['L8:'],
+}
+
+
+def between():
+    out = []
+    for name, item in ITEMS.items():
+        tail = [G(0), 'L9:', F4] if any('L9' in x for x in item) else []
+        out.append(('btw_b_' + name, ['L0:'] + item + ['dw %offset(L0)', 'addi x5 x5 %offset(L0)', 'j L0', 'dw L0'] + tail))
+        out.append(('btw_f_' + name, ['j L1', 'dw %offset(L1)', 'lw x5 x6 %offset(L1)'] + item + ['L1:', F4, 'dw L1'] + tail))
+    return out
+
+
 CURATED += [
     ('fc_label_bwd_br', [FC, 'L1:', G(0), 'bnez x8 L1']),
     ('fc_fc_label_bwd_j', [FC, FC, 'L1:', G(0), 'j L1']),
     ('mv_label_bwd_br', ['mv x8 x9', 'L1:', G(0), 'beq x8 x0 L1', 'jal L1']),
     ('label_before_align', ['dw L1', 'dh 1', 'L1:', 'align 4', FC, 'j L1']),
     ('label_before_align_aligned', ['dw L1', 'L1:', 'align 8', F4, 'beq x8 x0 L1']),
+    ('string_utf8_align', ['string caf\u00e9 \u00b5s', 'align 4', 'L1:', 'dw L1', 'string \u65e5\u672c', 'align 8', 'L2:', 'dw L2']),
+    ('string_escape_align', ['string a\\nb\\t\\x41', 'L0:', 'align 4', 'L1:', 'dw L1', 'dw L0']),
+    ('offset_after_padded_align', ['dh 1', 'align 4', 'L1:', FC, 'addi x5 x5 %offset(L1)', 'dw %offset(L1)', 'db 1', 'align 8', 'pack <i %offset(L1)', 'j L1']),
+    ('offset_after_gap_align', [G(0), 'align 16', 'L1:', F4, 'dw %offset(L1)', 'lw x5 x6 %offset(L1)', 'beq x8 x0 L1']),
     ('label_between_aligns', ['dh 1', 'align 4', 'L1:', 'align 8', 'L2:', 'dw L1', 'dw L2']),
 ]
 
